@@ -346,4 +346,51 @@ theorem runTags_lines (db : UnicodeDB) (cfg : Config) :
               · exact hnl l hl
             · simp [← h]
 
+/-- a run over `a ++ b` is the run over `a` followed by the run over `b` (the first unknown tag aborts) -/
+theorem runTags_append (db : UnicodeDB) (cfg : Config) (a b : List (Str × List Extra)) :
+    runTags db cfg (a ++ b) =
+      match runTags db cfg a with
+      | .error e => .error e
+      | .ok oa =>
+        match runTags db cfg b with
+        | .error e => .error e
+        | .ok ob => .ok (oa ++ ob) := by
+  induction a with
+  | nil =>
+    simp only [List.nil_append, runTags]
+    cases runTags db cfg b <;> simp
+  | cons call rest ih =>
+    obtain ⟨n, xs⟩ := call
+    simp only [List.cons_append, runTags, ih]
+    cases checkerTag db cfg n xs with
+    | error e => rfl
+    | ok o =>
+      cases runTags db cfg rest with
+      | error e => rfl
+      | ok o' =>
+        cases runTags db cfg b with
+        | error e => rfl
+        | ok ob => simp
+
+/-- if every call, taken alone, prints `outs[i]`, the run prints their concatenation -/
+theorem runTags_of_calls (db : UnicodeDB) (cfg : Config) :
+    ∀ (calls : List (Str × List Extra)) (outs : List Str),
+      calls.map (fun c => checkerTag db cfg c.1 c.2) = outs.map Except.ok →
+      runTags db cfg calls = .ok outs.flatten := by
+  intro calls
+  induction calls with
+  | nil =>
+    intro outs h
+    cases outs with
+    | nil => simp [runTags]
+    | cons o os => simp at h
+  | cons call rest ih =>
+    intro outs h
+    obtain ⟨n, xs⟩ := call
+    cases outs with
+    | nil => simp at h
+    | cons o os =>
+      simp only [List.map_cons, List.cons.injEq] at h
+      simp [runTags, h.1, ih os h.2]
+
 end I18n.Tags
